@@ -12,9 +12,35 @@ NOTOTAL = [-1, 1]
 YEARS = [2020.0, 2022.0]
 
 
+GRID = ["<<0,1>>", "<<1,1>>", "<<2,1>>", "<<5,1>>"]
+BOUNDS = ["<<<<0,1>>, INF>>", "<<<<1,2>>, INF>>", "<<<<0,1>>, <<2,1>>>>", "<<<<1,1>>, <<1,1>>>>", "<<<<1,2>>, <<2,1>>>>", "<<<<0,1>>, <<1,2>>>>"]
+BOUNDS_SMALL = ["<<<<0,1>>, INF>>", "<<<<1,2>>, INF>>", "<<<<1,1>>, <<1,1>>>>", "<<<<1,2>>, <<2,1>>>>"]
+
+
+# vectors that are always part of the samples: the solver (SLSQP at its default-ish tolerance) missed the required total by more than
+# 1e-6 relative on these (6 programs: 11.99997588 for 12; 10 programs: 4.5000179 for 4.5) until fix 43
+_g = lambda v: {0: GRID[0], 1: GRID[1], 2: GRID[2], 5: GRID[3]}[v]
+_b = lambda lo, hi: "<<%s, %s>>" % ({0: "<<0,1>>", 0.5: "<<1,2>>", 1: "<<1,1>>"}[lo], {None: "INF", 0.5: "<<1,2>>", 1: "<<1,1>>", 2: "<<2,1>>"}[hi])
+PINNED = {6: ([1, 0, 1, 1, 0, 1], [0, 2, 2, 2, 2, 0], [(0.5, 2), (0.5, None), (0, 0.5), (0, 2), (1, 1), (0.5, None)]),
+          10: ([0, 2, 5, 0, 5, 0, 5, 5, 2, 1], [2, 5, 2, 5, 1, 5, 5, 5, 5, 1], [(0.5, 2), (1, 1), (0.5, None), (0.5, None), (0.5, None), (0, 2), (0.5, None), (0, None), (0, None), (0.5, 2)])}
+
+
+def sampled_module(n, small, sample):
+    """MCAlloc.tla with the sample sets for n programs (seeded by VERIF_SEED)."""
+    rng = np.random.default_rng(C.seed() * 1000 + n)
+    txt = open(C.SPEC + "/MCAlloc.tla").read()
+    sets = [C.sample_vectors(rng, GRID, n, sample), C.sample_vectors(rng, GRID, n, sample), C.sample_vectors(rng, BOUNDS_SMALL if small else BOUNDS, n, sample)]
+    if n in PINNED and not small:
+        x, x0, b = PINNED[n]
+        pins = ["<<%s>>" % ", ".join(_g(v) for v in x), "<<%s>>" % ", ".join(_g(v) for v in x0), "<<%s>>" % ", ".join(_b(lo, hi) for lo, hi in b)]
+        sets = ["(%s \\cup {%s})" % (a_, p_) for a_, p_ in zip(sets, pins)]
+    add = "MCSampX == %s\nMCSampX0 == %s\nMCSampB == %s\n" % tuple(sets)
+    return {"MCAlloc.tla": txt.replace("====", add + "====")}
+
+
 def cfg(n, small, sample=0):
-    s = "SPECIFICATION Spec\nCONSTANTS\n  NProg = %d\n  Grid <- MCGrid\n  Initials <- MCInitials%s\n  Totals <- MCTotals\n  Factors <- MCFactors\n  BoundPairs <- %s\n  Sample = %d\n" % (
-        n, str(n) if n <= 3 else "Any", "MCBoundPairsSmall" if small else "MCBoundPairs", sample)
+    s = "SPECIFICATION Spec\nCONSTANTS\n  NProg = %d\n  Grid <- MCGrid\n  Initials <- MCInitials%s\n  Totals <- MCTotals\n  Factors <- MCFactors\n  BoundPairs <- %s\n  Sample = %d\n  SampX <- %s\n  SampX0 <- %s\n  SampB <- %s\n" % (
+        n, str(n) if n <= 3 else "Any", "MCBoundPairsSmall" if small else "MCBoundPairs", sample, *(("MCSampX", "MCSampX0", "MCSampB") if sample else ("MCNone", "MCNone", "MCNone")))
     return s + "INVARIANT UnresolvableSound\nINVARIANT WitnessOK\nCHECK_DEADLOCK FALSE\n"
 
 
@@ -69,8 +95,20 @@ def observe(at, c0, split=False):
     return "ok", z, ""
 
 
+PROPS = ["<<<<0,1>>, <<1,1>>>>", "<<<<1,4>>, <<3,4>>>>", "<<<<0,1>>, <<1,2>>>>"]
+FRACS = ["<<0,1>>", "<<1,4>>", "<<1,2>>", "<<1,1>>"]
+
+
+def sampled_pkg_module(n, sample):
+    rng = np.random.default_rng(C.seed() * 1000 + 500 + n)
+    txt = open(C.SPEC + "/MCPackage.tla").read()
+    add = "MCSampPB == %s\nMCSampFR == %s\n" % (C.sample_vectors(rng, PROPS, n, sample), C.sample_vectors(rng, FRACS, n, 3 * sample))
+    return {"MCPackage.tla": txt.replace("====", add + "====")}
+
+
 def cfg_pkg(n, sample=0):
-    s = "SPECIFICATION Spec\nCONSTANTS\n  PkgSample = %d\n  NMem = %d\n  Inits <- MCInits%d\n  PropPairs <- MCPropPairs\n  FracGrid <- MCFracGrid\n  TotalRanges <- MCTotalRanges\n  Plains <- MCPlains\n  ConFactors <- MCCons\n  WGrid <- MCWGrid\n" % (sample, n, n)
+    s = "SPECIFICATION Spec\nCONSTANTS\n  SampPB <- %s\n  SampFR <- %s\n" % (("MCSampPB", "MCSampFR") if sample else ("MCNone", "MCNone"))
+    s += "  PkgSample = %d\n  NMem = %d\n  Inits <- MCInits%d\n  PropPairs <- MCPropPairs\n  FracGrid <- MCFracGrid\n  TotalRanges <- MCTotalRanges\n  Plains <- MCPlains\n  ConFactors <- MCCons\n  WGrid <- MCWGrid\n" % (sample, n, n)
     return s + "INVARIANT ShareFeasible\nINVARIANT UnresSound\nINVARIANT LevelFeasible\nCHECK_DEADLOCK FALSE\n"
 
 
@@ -135,7 +173,7 @@ def packages(at, V, cov, thorough):
     rid = 0
     outcomes = {}
     for n, sample in ([(2, 0), (3, 12)] if thorough else [(2, 0), (3, 4)]):  # three members: proportion bounds and proposals sampled by TLC
-        r, cases = C.enumerate_cases(["Rat", "Package", "MCPackage"], "MCPackage", cfg_pkg(n, sample), timeout=3000)
+        r, cases = C.enumerate_cases(["Rat", "Package", "MCPackage"], "MCPackage", cfg_pkg(n, sample), timeout=3000, generated=sampled_pkg_module(n, sample) if sample else None)
         cov["states"] += r.distinct
         cov["transitions"] += r.generated
         cov["plan"].append(dict(packages=True, members=n, sampled_per_choice=sample, cases=len(cases)))
@@ -166,19 +204,19 @@ def run(prop, tier):
     V = C.Verdict(prop)
     thorough = tier == "thorough"
     # (programs, small bound set, sample): 1-3 programs exhaustively over the grids, 6 and 10 programs on random cases drawn by TLC
-    plan = [(1, False, 0), (2, not thorough, 0)] + ([(3, True, 24)] if thorough else []) + [(6, False, 6 if thorough else 4), (10, False, 5 if thorough else 3)]
+    plan = [(1, False, 0), (2, not thorough, 0)] + ([(3, True, 24)] if thorough else []) + [(6, False, 8 if thorough else 6), (10, False, 6 if thorough else 4)]
     cov = dict(states=0, transitions=0, traces_validated_against_impl=0, samples=[], exhaustive=True, plan=[])
     records, index = [], {}
     rid = 0
     outcomes = {}
     for n, small, sample in plan:
-        r, cases = C.enumerate_cases(["Rat", "Alloc", "MCAlloc"], "MCAlloc", cfg(n, small, sample), timeout=3000)
+        r, cases = C.enumerate_cases(["Rat", "Alloc", "MCAlloc"], "MCAlloc", cfg(n, small, sample), timeout=3000, generated=sampled_module(n, small, sample) if sample else None)
         cov["states"] += r.distinct
         cov["transitions"] += r.generated
         cov["plan"].append(dict(n=n, small=small, sampled_per_choice=sample, cases=len(cases)))
         if sample:
             cov["exhaustive"] = False
-            cov["exhaustive_note"] = "1-3 programs and the spending packages exhaustive over the grids; 6 and 10 programs sampled by TLC (RandomSubset)"
+            cov["exhaustive_note"] = "1-3 programs and the spending packages exhaustive over the grids; 6 and 10 programs on vectors drawn with the harness's seeded generator"
         for c0 in cases:
             outcome, z, err = observe(at, c0, split=(len(records) % 2 == 1))
             outcomes[outcome] = outcomes.get(outcome, 0) + 1
